@@ -597,6 +597,8 @@ var stdExternals = map[string]externalFn{
 	"internal/stringslite.IndexByte": shimIndexByte,
 	"strings.IndexByte":              shimIndexByte,
 	"bytes.IndexByte":                shimIndexByte,
+	"internal/stringslite.Clone":    func(fr *frame, args []value) value { return args[0] },
+	"strings.Clone":                 func(fr *frame, args []value) value { return args[0] },
 	"internal/abi.NoEscape":          func(fr *frame, args []value) value { return args[0] },
 	"internal/abi.Escape":            func(fr *frame, args []value) value { return args[0] },
 	"runtime.KeepAlive":              func(fr *frame, args []value) value { return nil },
